@@ -87,15 +87,40 @@ func labelAtLimitAcrossLines(doc []byte) bool {
 	return false
 }
 
-// rootAboveStreamingLimit: some root block of the in-memory parse is (within one read chunk of) the streaming
-// parser's block-size limit of 1 MiB — the only inputs on which readline's "block too large" branch is reachable.
+// rootAboveStreamingLimit: the streaming parser keeps the root block under construction, plus the line it is reading,
+// in one buffer of at most maxBlockSize = 1 MiB (NUL bytes padded to three). readline gives up exactly when that buffer
+// has reached maxBlockSize-2 bytes without containing the end of the current line. So "block too large" is the
+// documented outcome exactly when, for some root block r of the in-memory parse, the padded distance from r's first
+// byte to the end of some line that belongs to r or directly follows it exceeds maxBlockSize-2 (the line ending itself
+// must fit; a CR needs one byte of look-ahead). The class is that condition with a slack of 8 bytes below the bound:
+// a limit that moved by more than that is a violation, not this finding.
 func rootAboveStreamingLimit(doc []byte) bool {
-	if len(doc) < 1<<20-3*8192 {
+	const maxBlockSize = 1 << 20
+	if len(doc)+2*bytes.Count(doc, []byte{0}) < maxBlockSize-2-8 {
 		return false
 	}
 	res := parseMem(doc)
 	for _, r := range res.roots {
-		if len(r.Source) >= 1<<20-3*8192 {
+		start, end := int(r.StartOffset), int(r.EndOffset)
+		// the line that follows the block (it is read before the block can be closed), if any
+		for end < len(doc) {
+			c := doc[end]
+			end++
+			if c == '\n' {
+				break
+			}
+			if c == '\r' {
+				if end < len(doc) && doc[end] == '\n' {
+					end++
+				}
+				break
+			}
+		}
+		if end > len(doc) {
+			end = len(doc)
+		}
+		seg := doc[start:end]
+		if len(seg)+2*bytes.Count(seg, []byte{0}) > maxBlockSize-2-8 {
 			return true
 		}
 	}
